@@ -1,8 +1,10 @@
 package logqlengine
 
 import (
+	"cmp"
 	"maps"
 	"regexp"
+	"slices"
 
 	"github.com/cespare/xxhash/v2"
 	"go.opentelemetry.io/collector/pdata/pcommon"
@@ -30,6 +32,12 @@ func newAggregatedLabels(set LabelSet, by, without map[string]struct{}) *aggrega
 			name:  string(l),
 			value: v.AsString(),
 		})
+	})
+
+	// Map iteration order is random: sort entries, so equal label sets
+	// always have the same order (and the same key).
+	slices.SortFunc(labels, func(a, b labelEntry) int {
+		return cmp.Compare(a.name, b.name)
 	})
 
 	return &aggregatedLabels{
